@@ -1,0 +1,143 @@
+//go:build verif
+
+// Package verifhook holds observation/perturbation hooks used by external verification tooling.
+//
+// With the 'verif' build tag:
+//   - Permute puts a slice that the production code obtains in an unspecified order (map iteration,
+//     packages.Load) into an order chosen through the VERIF_ORDER environment variable, so that
+//     iteration-order dependence can be explored deterministically. Unset => slice untouched.
+//   - Event appends an observation to the VERIF_TRACE file.
+//
+// VERIF_ORDER is a comma separated list of `site=spec` items; site `*` is the default.
+// spec: `canon` (sorted by key), `rev` (sorted, reversed), `p<N>` (N-th permutation of the sorted
+// slice in Lehmer order, modulo k!), `s<N>` (pseudo-random shuffle of the sorted slice seeded by N).
+package verifhook
+
+import (
+	"encoding/json"
+	"hash/fnv"
+	"math/rand"
+	"os"
+	"sort"
+	"strconv"
+	"strings"
+	"sync"
+)
+
+var (
+	mu        sync.Mutex
+	orderOnce sync.Once
+	orderSpec map[string]string
+	lastLine  = map[string]string{}
+)
+
+func loadSpec() {
+	orderSpec = map[string]string{}
+	raw := os.Getenv("VERIF_ORDER")
+	if raw == "" {
+		return
+	}
+	for _, item := range strings.Split(raw, ",") {
+		kv := strings.SplitN(strings.TrimSpace(item), "=", 2)
+		if len(kv) == 2 {
+			orderSpec[kv[0]] = kv[1]
+		} else if len(kv) == 1 && kv[0] != "" {
+			orderSpec["*"] = kv[0]
+		}
+	}
+}
+
+func trace(v map[string]any, dedupKey string) {
+	path := os.Getenv("VERIF_TRACE")
+	if path == "" {
+		return
+	}
+	b, err := json.Marshal(v)
+	if err != nil {
+		return
+	}
+	mu.Lock()
+	defer mu.Unlock()
+	if dedupKey != "" {
+		if lastLine[dedupKey] == string(b) {
+			return
+		}
+		lastLine[dedupKey] = string(b)
+	}
+	f, err := os.OpenFile(path, os.O_APPEND|os.O_CREATE|os.O_WRONLY, 0o644)
+	if err != nil {
+		return
+	}
+	defer f.Close()
+	f.Write(append(b, '\n'))
+}
+
+// Permute reorders items as VERIF_ORDER prescribes for the site (see package doc).
+func Permute[T any](site string, items []T, key func(T) string) []T {
+	orderOnce.Do(loadSpec)
+	spec, ok := orderSpec[site]
+	if !ok {
+		spec, ok = orderSpec["*"]
+	}
+	if !ok || len(items) == 0 {
+		return items
+	}
+	out := append([]T(nil), items...)
+	sort.SliceStable(out, func(i, j int) bool { return key(out[i]) < key(out[j]) })
+	switch {
+	case spec == "canon":
+	case spec == "rev":
+		for i, j := 0, len(out)-1; i < j; i, j = i+1, j-1 {
+			out[i], out[j] = out[j], out[i]
+		}
+	case strings.HasPrefix(spec, "p"):
+		n, _ := strconv.ParseUint(spec[1:], 10, 64)
+		pool := out
+		out = make([]T, 0, len(pool))
+		k := uint64(len(pool))
+		// factorial number system, most significant digit first
+		fact := make([]uint64, k+1)
+		fact[0] = 1
+		for i := uint64(1); i <= k; i++ {
+			fact[i] = fact[i-1] * i
+			if fact[i] == 0 || fact[i] < fact[i-1] {
+				fact[i] = ^uint64(0)
+			}
+		}
+		if fact[k] != ^uint64(0) {
+			n %= fact[k]
+		}
+		for i := k; i > 0; i-- {
+			f := fact[i-1]
+			idx := uint64(0)
+			if f != ^uint64(0) {
+				idx = n / f
+				n %= f
+			}
+			if idx >= uint64(len(pool)) {
+				idx = uint64(len(pool)) - 1
+			}
+			out = append(out, pool[idx])
+			pool = append(append([]T(nil), pool[:idx]...), pool[idx+1:]...)
+		}
+	case strings.HasPrefix(spec, "s"):
+		seed, _ := strconv.ParseInt(spec[1:], 10, 64)
+		h := fnv.New64a()
+		h.Write([]byte(site))
+		r := rand.New(rand.NewSource(seed ^ int64(h.Sum64()&0x7fffffffffffffff)))
+		r.Shuffle(len(out), func(i, j int) { out[i], out[j] = out[j], out[i] })
+	default:
+		return items
+	}
+	keys := make([]string, len(out))
+	for i, it := range out {
+		keys[i] = key(it)
+	}
+	trace(map[string]any{"ev": "order", "site": site, "n": len(out), "order": keys}, site)
+	return out
+}
+
+// Event records an observation in the VERIF_TRACE file.
+func Event(kind string, key string) {
+	trace(map[string]any{"ev": kind, "key": key}, "")
+}
